@@ -120,6 +120,8 @@ def gen_cases(chk, n, per):
             opts["skipws"] = False
         if r.chance(0.1):
             opts["ws"] = r.choice([" ", " \t", "\n "])
+        if r.chance(0.15):
+            opts["use_regexp_group"] = True
         kws = [l for l in K.LITS21 + K.SEPS21 if py_kw_like(l)]
         inputs = []
         for k in range(per):
@@ -405,6 +407,8 @@ def run(chk):
                     chk.stat("model level: outside the fragment of Model/Build.v")
                 else:
                     chk.stat("model level: inputs built in Coq on both tables")
+                    if res.get("use_grp"):
+                        chk.stat("model level: ... of which with use_regexp_group")
                     for oo, rr, nm_ in ((o0, p, "plain"), (o1, k, "autokwd")):
                         if not B.outcomes_agree(oo, rr["model01"]):
                             disagreements.append({"case": cinfo, "impl": rr["model01"], "model": oo, "what": "Model/Build.v vs model_from_str (%s)" % nm_})
